@@ -18,7 +18,7 @@ RULE = ("cases = (cube of 1-4 dims, 0-4 lookup-table extra coords: Quantity / Ti
         "different hash seeds and heap layouts (order stability); distinct by key; non-trivial = some slice is not "
         "the identity")
 ASSUMPTIONS = ["Quantity / Time / SkyCoord slicing themselves are dependencies (numpy selection, np_axis_sel)",
-               "meshed SkyCoord tables only with slices on their two axes (an integer on one of them: known finding of C19), 2-D SkyCoord tables are not generated; WCS-backed ExtraCoords only with the cube's dimensionality, identity mapping and range slices (direct oracle)",
+               "meshed SkyCoord tables only with slices on their two axes (an integer on one of them: known finding of C19), 2-D SkyCoord tables are not generated; WCS-backed ExtraCoords (the cube's dimensionality, any permutation as mapping, integer and range slices in chains) by the direct oracle",
                "address-dependent ordering is observed by repetition in fresh processes (a runtime fact no model can exhibit)"]
 EPOCH = "2020-01-01T00:00:00"
 
@@ -123,26 +123,43 @@ def gen(tier, rng):
             key = f"{shape}|{tabs}|{chain}"
             cases.append({"key": key, "stratum": f"skymesh-depth{len(chain)}", "shape": shape, "tabs": tabs, "chain": chain,
                           "probe": False, "nontrivial": True, "show": {"shape": shape, "extra_coords": tabs, "slices": chain}})
-    # WCS-backed ExtraCoords (a second FITS WCS of the cube's dimensionality, identity mapping), range slices only
-    for _ in range(150 if tier == "quick" else 3000):
-        nd = rng.choice([1, 2, 3])
+    # WCS-backed ExtraCoords: a second FITS WCS of the cube's dimensionality mapped onto the cube's pixel axes in any order; chains of slices with integers (never on all of its dimensions at once), negative and open bounds
+    for _ in range(300 if tier == "quick" else 5000):
+        nd = rng.choice([1, 2, 3, 3])
         shape = [rng.choice([3, 4, 5]) for _ in range(nd)]
-        chain, cur = [], list(shape)
+        # (the library only accepts mapping values below the number of pixel dimensions of the extra WCS: it has the
+        #  cube's dimensionality and the mapping is a permutation)
+        mapping = list(range(nd))                        # cube pixel axis of each pixel dimension of the extra WCS
+        if rng.random() < 0.6:
+            rng.shuffle(mapping)
+        chain, cur, axes_now = [], list(shape), list(range(nd))
         for _d in range(rng.choice([1, 1, 2])):
             its = []
             for sz in cur:
-                a = rng.choice([None, 0, 1, -1, -sz, -sz - 2, sz - 1])
-                b = rng.choice([None, sz, -1, sz + 2, 2])
-                its.append(["s", a, b, None])
-            new = [len(range(sz)[slice(it[1], it[2])]) for sz, it in zip(cur, its)]
+                if rng.random() < 0.25:
+                    its.append(rng.choice([0, sz - 1, -1, -sz]))
+                else:
+                    a = rng.choice([None, 0, 1, -1, -sz, -sz - 2, sz - 1])
+                    b = rng.choice([None, sz, -1, sz + 2, 2])
+                    its.append(["s", a, b, None])
+            # keep at least one dimension of the extra WCS and one cube axis
+            ec_axes = [nd - 1 - m for m in mapping]
+            alive_ec = [orig for orig, it in zip(axes_now, its) if orig in ec_axes and not isinstance(it, int)]
+            if not alive_ec or all(isinstance(i, int) for i in its):
+                continue
+            new, new_axes = [], []
+            for orig, sz, it in zip(axes_now, cur, its):
+                if not isinstance(it, int):
+                    new.append(len(range(sz)[slice(it[1], it[2])]))
+                    new_axes.append(orig)
             if 0 in new:
                 break
             chain.append(its)
-            cur = new
+            cur, axes_now = new, new_axes
         if chain:
-            cases.append({"key": f"wcsec|{shape}|{chain}", "stratum": "wcs-backed", "shape": shape, "tabs": [], "chain": chain,
-                          "probe": False, "wcsec": True, "nontrivial": True,
-                          "show": {"shape": shape, "extra_coords": "WCS-backed", "slices": chain}})
+            cases.append({"key": f"wcsec|{shape}|{mapping}|{chain}", "stratum": "wcs-backed", "shape": shape, "tabs": [], "chain": chain,
+                          "probe": False, "wcsec": True, "ecmap": mapping, "nontrivial": True,
+                          "show": {"shape": shape, "extra_coords": "WCS-backed", "mapping(cube pixel axis per extra pixel dimension)": mapping, "slices": chain}})
     # order-stability probes: fresh interpreters
     nprobe = 24 if tier == "quick" else 200
     multi = [c for c in cases if len(c["tabs"]) >= 3][:nprobe]
@@ -245,16 +262,18 @@ def _run_wcsec(case):
     shape = tuple(case["shape"])
     nd = len(shape)
     cube = NDCube(np.arange(int(np.prod(shape))).reshape(shape), wcs=lin_wcs(nd))
-    w = WCS(naxis=nd)
-    w.wcs.ctype = ["ENER", "VELO", "WAVN"][:nd]
-    w.wcs.cunit = ["J", "m/s", "1/m"][:nd]
-    w.wcs.cdelt = [10.0, 100.0, 1000.0][:nd]
-    w.wcs.crpix = [1] * nd
-    w.wcs.crval = [5.0, 50.0, 500.0][:nd]
+    mapping = list(case.get("ecmap") or range(nd))
+    ne = len(mapping)
+    w = WCS(naxis=ne)
+    w.wcs.ctype = ["ENER", "VELO", "WAVN"][:ne]
+    w.wcs.cunit = ["J", "m/s", "1/m"][:ne]
+    w.wcs.cdelt = [10.0, 100.0, 1000.0][:ne]
+    w.wcs.crpix = [1] * ne
+    w.wcs.crval = [5.0, 50.0, 500.0][:ne]
     w.wcs.set()
     ec = ExtraCoords(ndcube=cube)
     ec.wcs = w
-    ec.mapping = tuple(range(nd))
+    ec.mapping = tuple(mapping)
     cube._extra_coords = ec
     why = []
     try:
@@ -268,12 +287,23 @@ def _run_wcsec(case):
             ll = c.extra_coords.wcs.low_level_wcs
             g = np.indices(c.data.shape)
             mp = [int(m) for m in c.extra_coords.mapping]
-            r = ll.pixel_to_world_values(*[g[c.data.ndim - 1 - m] for m in mp])
-            return [r] if ll.world_n_dim == 1 else list(r)
+            # (a 1-D FITS WCS only takes 1-D pixel arrays: evaluate on the flattened grid)
+            r = ll.pixel_to_world_values(*[g[c.data.ndim - 1 - m].ravel() for m in mp])
+            r = [r] if ll.world_n_dim == 1 else list(r)
+            return [np.asarray(x).reshape(c.data.shape) for x in r]
         pw, cw = world(cube), world(cur)
         idx = np.unravel_index(src.ravel(), shape)
-        if list(cur.extra_coords.wcs.world_axis_physical_types) != list(cube.extra_coords.wcs.world_axis_physical_types):
-            why.append("physical types / order of the WCS-backed extra coords changed")
+        # the world axis of extra pixel dimension j survives unless the cube axis it is mapped to was integer-indexed
+        alive = list(range(nd))
+        for its in case["chain"]:
+            full = list(Q.dec_items(its)) + [slice(None)] * (len(alive) - len(its))
+            alive = [a for a, it in zip(alive, full) if not isinstance(it, int)]
+        keep = [j for j, m in enumerate(mapping) if (nd - 1 - m) in alive]
+        ptypes = list(cube.extra_coords.wcs.world_axis_physical_types)
+        if list(cur.extra_coords.wcs.world_axis_physical_types) != [ptypes[j] for j in keep]:
+            why.append(f"physical types of the WCS-backed extra coords after slicing: {list(cur.extra_coords.wcs.world_axis_physical_types)}, "
+                       f"expected the surviving {[ptypes[j] for j in keep]} in that order")
+        pw = [pw[j] for j in keep]
         for k, (a, b) in enumerate(zip(cw, pw)):
             exp = b[idx].reshape(src.shape)
             if not np.allclose(a, exp, rtol=1e-9, atol=1e-9):
